@@ -130,6 +130,15 @@ def base_cases(r, tier):
     out.append({"name": "absolute-link-to-sibling-destination", "spec": copy.deepcopy(spec12), "pre": pre19, "bs": "4096", "expect_fail": False, "per": 24 if tier == "quick" else 120})
     pre20 = [{"p": "dst", "k": "d"}, {"p": "dst/src", "k": "d"}, {"p": "dst/src/b", "k": "l", "target": "c"}, {"p": "dst/src/c", "k": "l", "target": "a"}]
     out.append({"name": "dangling-link-chain-to-sibling-destination", "spec": copy.deepcopy(spec12), "pre": pre20, "bs": "4096", "expect_fail": False, "per": 24 if tier == "quick" else 120})
+    # ... a chain whose middle link is nobody's destination: it ends at the (absent) destination of a source copied earlier, or later
+    pre24 = [{"p": "dst", "k": "d"}, {"p": "dst/src", "k": "d"}, {"p": "dst/src/e", "k": "l", "target": "mid"}, {"p": "dst/src/mid", "k": "l", "target": "a"}]
+    out.append({"name": "dangling-link-chain-through-bystander-to-earlier-destination", "spec": copy.deepcopy(spec12), "pre": pre24, "bs": "4096", "expect_fail": False, "per": 24 if tier == "quick" else 120})
+    pre25 = [{"p": "dst", "k": "d"}, {"p": "dst/src", "k": "d"}, {"p": "dst/src/a", "k": "l", "target": "mid1"}, {"p": "dst/src/mid1", "k": "l", "target": "./mid2"},
+             {"p": "dst/src/mid2", "k": "l", "target": "@ROOT@/dst/src/e"}]
+    out.append({"name": "dangling-link-chain-through-bystanders-to-later-destination", "spec": copy.deepcopy(spec12), "pre": pre25, "bs": "4096", "expect_fail": False, "per": 24 if tier == "quick" else 120})
+    pre26 = [{"p": "dst", "k": "d"}, {"p": "dst/a", "k": "l", "target": "mid"}, {"p": "dst/mid", "k": "l", "target": "b"}]
+    out.append({"name": "dangling-link-chain-target-queued-first", "spec": copy.deepcopy(spec12), "pre": pre26, "bs": "4096", "expect_fail": False, "per": 24 if tier == "quick" else 120,
+                "tail": ["src/b", "src/a", "dst"]})
     pre21 = [{"p": "dst", "k": "d"}, {"p": "dst/src", "k": "d"}, {"p": "dst/src/a", "k": "l", "target": "@ROOT@/dst/src/b"}]
     out.append({"name": "absolute-dangling-link-to-sibling-destination", "spec": copy.deepcopy(spec12), "pre": pre21, "bs": "4096", "expect_fail": False, "per": 24 if tier == "quick" else 120})
     pre22 = [{"p": "dst", "k": "d"}, {"p": "dst/src", "k": "d"}, {"p": "dst/src/e", "k": "l", "target": "@ROOT@/dst/src/a"}]
